@@ -24,11 +24,19 @@
    registered at m; registration only by a heartbeat, which calls SetMax(largest
    key in use in the volume) first; a leader change unregisters everything.
 
+   MSplit: the heartbeat handler of the master (weed/server SendHeartbeat) is two steps, parked between them at
+   the entry of Sequence.SetMax; while it is parked the master serves assignments for whatever is registered.
+   With the order of the code nothing of the heartbeat is registered yet; with HbOrder = "register-first" the
+   volume is already offered while the sequencer has not been told its largest key.
+
    bad # "" as soon as an assignment is not admitted by layer A (with the open
    known findings KFm admitted).  Histories (inputs only) are logged in hist in
    the script format of harness/cmd/c13. *)
 EXTENDS KeyAlloc
-CONSTANTS Kind, Counts, Steps, Pre, SetMaxShape, CasRetry, RefillCas, Split, KFm, MaxTicks, WithVids, Fresh, GDepth
+CONSTANTS Kind, Counts, Steps, Pre, SetMaxShape, CasRetry, RefillCas, Split, KFm, MaxTicks, WithVids, Fresh, GDepth,
+          MSplit,    \* the master's heartbeat handler is split at the entry of Sequence.SetMax (memory / snowflake)
+          HbOrder    \* "setmax-first": SendHeartbeat as it is (SetMax, then the volumes are registered);
+                     \* "register-first": a plausible breakage (the volumes are registered, SetMax comes later)
 VARIABLES etcd, cur, max, mem, now, last, sq, leader, fly, asgs, maxvid, bad
 ivars == <<etcd, cur, max, mem, now, last, sq, leader, fly, asgs, maxvid, bad>>
 bvars == <<vars, ivars>>
@@ -118,9 +126,11 @@ BWrite(a, j) ==
   /\ Log([ev |-> "write", a |-> a - 1,          \* the offset in the [c, s] form of the counts
           j |-> IF j = 0 THEN [c |-> 0, s |-> 0] ELSE [c |-> asgs[a].nr.c - 1, s |-> asgs[a].nr.s]])
   /\ UNCHANGED <<kind, given, reg, gen, smax, vgiven, vreg, pend, ivars>>
+NoHandlerParked == \A x \in Masters : fly[x] = None \/ fly[x].op # "mhb"
 BLeader(m, fresh) ==
   /\ m # leader \/ fresh
   /\ fresh => Idle(m)
+  /\ NoHandlerParked          \* a leader change breaks every stream; a parked handler is released first
   /\ leader' = m /\ LeaderEff(m, fresh)
   /\ IF fresh
      THEN /\ mem' = [mem EXCEPT ![m] = 1]
@@ -150,7 +160,7 @@ BBeginHb(m, vol) ==
    again, so further operations of other masters may interleave); RefillCas = FALSE is a plausible
    breakage (a write that is not a compare-and-swap): the stale value is used. *)
 BEnd(m) ==
-  /\ fly[m] # None
+  /\ fly[m] # None /\ fly[m].op \in {"next", "hb"}
   /\ (fly[m].op = "next" /\ RefillCas) => fly[m].prev = etcd
   /\ fly' = [fly EXCEPT ![m] = None]
   /\ IF fly[m].op = "next"
@@ -168,6 +178,27 @@ BRetry(m) ==
   /\ fly' = [fly EXCEPT ![m].prev = etcd]
   /\ Log([ev |-> "release", p |-> Ord[m], again |-> TRUE])
   /\ UNCHANGED <<avars, etcd, cur, max, mem, now, last, sq, leader, asgs, maxvid, bad>>
+
+(* ---------------- the master's heartbeat handler split at the entry of Sequence.SetMax ---------------- *)
+BBeginMHb(m, vol) ==
+  /\ MSplit /\ Kind # "etcd" /\ Idle(m) /\ <<m, vol>> \notin reg
+  /\ fly' = [fly EXCEPT ![m] = [op |-> "mhb", vol |-> vol, n |-> MaxUsed(vol), prev |-> 0]]
+  /\ reg' = IF HbOrder = "register-first" THEN reg \cup {<<m, vol>>} ELSE reg
+  /\ Log([ev |-> "call", p |-> Ord[m], op |-> "hb", m |-> m, vol |-> vol, n |-> [c |-> 0, s |-> 0], v |-> 0, gate |-> TRUE])
+  /\ UNCHANGED <<kind, given, inuse, gen, smax, vgiven, vreg, pend, etcd, cur, max, mem, now, last, sq, leader, asgs, maxvid, bad>>
+(* an assignment served by master m while its heartbeat handler is parked *)
+BAssignDuring(m, vol, n) ==
+  /\ fly[m] # None /\ fly[m].op = "mhb" /\ m = leader /\ <<m, vol>> \in reg
+  /\ NextImpl(m, vol, Cnt(n))
+  /\ Log([ev |-> "call", p |-> Ord[m] + Cardinality(Masters), op |-> "next", m |-> m, vol |-> vol, n |-> n, v |-> 0,
+          gate |-> FALSE, bg |-> TRUE])
+  /\ UNCHANGED <<kind, inuse, reg, gen, smax, vgiven, vreg, pend, leader, fly, maxvid>>
+BEndM(m) ==
+  /\ fly[m] # None /\ fly[m].op = "mhb"
+  /\ fly' = [fly EXCEPT ![m] = None]
+  /\ SetMaxImpl(m, fly[m].n) /\ HbEff(m, fly[m].vol, fly[m].n)
+  /\ Log([ev |-> "release", p |-> Ord[m], again |-> FALSE])
+  /\ UNCHANGED <<kind, given, inuse, gen, vgiven, vreg, pend, leader, asgs, maxvid, bad>>
 
 (* ---------------- volume ids: topology.NextVolumeId through raft ---------------- *)
 BNextVid(m) ==
@@ -195,6 +226,9 @@ BNext ==
      \/ \E m \in Masters, vol \in Vols : BBeginHb(m, vol)
      \/ \E m \in Masters : BEnd(m)
      \/ \E m \in Masters : BRetry(m)
+     \/ \E m \in Masters, vol \in Vols : BBeginMHb(m, vol)
+     \/ \E m \in Masters, vol \in Vols, n \in Counts : BAssignDuring(m, vol, n)
+     \/ \E m \in Masters : BEndM(m)
      \/ \E m \in Masters : BNextVid(m)
      \/ \E m \in Masters, id \in {1, 3} : BVolReg(m, id)
 BSpec == BInit /\ [][BNext]_bvars
